@@ -34,6 +34,7 @@ type clNode struct {
 	threads []vsched.Handle
 	leaveTh *vsched.Handle
 	knows   map[string]bool // leave facts ("x@ltime") this node has been handed
+	sawUp   map[string]int  // per member: 1 + the newest incarnation (epoch) of it that this node's memberlist held alive
 }
 
 func (c *clNode) up() bool { return c.phase == "run" || c.phase == "leaving" }
@@ -168,6 +169,10 @@ func (cl *cluster) learnAlive(k, x *clNode) {
 		return
 	}
 	k.view[x.name] = 1
+	if k.sawUp == nil {
+		k.sawUp = map[string]int{}
+	}
+	k.sawUp[x.name] = x.epoch + 1
 	k.n.Events().NotifyJoin(cl.mlnode(k, x))
 }
 
@@ -836,6 +841,12 @@ func (cl *cluster) oracle(hist []string) {
 			case x.phase == "leaving":
 				want = []string{"alive", "leaving"}
 			default: // down
+				if k.sawUp[name] < x.epoch+1 {
+					// k's memberlist never held this incarnation of the member alive (it went down
+					// before its refutation of "dead/left" reached k): what k reports is the fate of
+					// the previous incarnation, which is all it can know
+					continue
+				}
 				left := cl.graceful[name] || cl.leaveLT[name] > cl.joinLT[name]
 				if cl.claimedUp[name] {
 					// the member was force-left while it was up and the claim may never have reached it
